@@ -214,9 +214,9 @@ func init() {
 		LevelNote: "accepted repairs: save/restore of *recv in a defer, or delegation to a fresh value", DesignRef: "4 SE, PAIR; 5 C10"})
 
 	claim("C11", PropertySpec{
-		Engines: []EngineSpec{all("SE"), funcs("TB", "checkAndPropagateArgsForUnion"), all("RS")},
-		Clause: "The two global-state channels that are structurally checkable: evaluator and strategy singletons (43 types in the two registries) carry no state across (nested) evaluations — no store through the receiver in any method that can run on the singleton (SE); and the union-receiver call path does not accumulate return types into shared method-table entries (TB, the channel the property names; the full table-immutability rule is C12); and parser fields that carry per-call state from method evaluation to block/definition evaluation are reset when the next method evaluation starts, cleared by a defer, or consumed on read (RS).",
-		NotCovered: "the isParsingExpression flag, GenId numbering, per-call state kept outside the parser",
+		Engines: []EngineSpec{all("SE"), funcs("TB", "checkAndPropagateArgsForUnion"), all("RS"), all("GEN")},
+		Clause: "The two global-state channels that are structurally checkable: evaluator and strategy singletons (43 types in the two registries) carry no state across (nested) evaluations — no store through the receiver in any method that can run on the singleton (SE); and the union-receiver call path does not accumulate return types into shared method-table entries (TB, the channel the property names; the full table-immutability rule is C12); and parser fields that carry per-call state from method evaluation to block/definition evaluation are reset when the next method evaluation starts, cleared by a defer, or consumed on read (RS); fresh-name counters are monotone over the process, so no synthetic name is handed out twice (GEN).",
+		NotCovered: "the isParsingExpression flag, per-call state kept outside the parser",
 	}, propMeta{Technique: "receiver-alias/effect analysis of registered singletons over go/ssa",
 		LevelText: "all registered types and all methods reachable on the shared receiver are enumerated and decided.",
 		LevelNote: "registries are resolved by role: package-level maps whose element type is a module interface", DesignRef: "4 SE; 5 C11"})
@@ -259,8 +259,8 @@ func init() {
 	}, propMeta{Technique: "must-pass-through over the SSA CFG + kind-constant exhaustiveness", LevelText: "all acquire sites in the block evaluator are enumerated and decided.", LevelNote: "error-return paths of the acquire itself are exempt", DesignRef: "4 PAIR; 5 C17"})
 
 	claim("C18", PropertySpec{
-		Engines: []EngineSpec{rules("ORD", "ORD-load", "ORD-prov"), rules("ED", "ED-1")},
-		Clause: "Nothing is printed while a preload file is analysed (every printing call of the analysis loop is dominated by the false edge of the load flag), diagnostics have a single writer, and the file name and the row of every record come from the same object.",
+		Engines: []EngineSpec{rules("ORD", "ORD-load", "ORD-prov"), rules("ED", "ED-1"), all("GEN")},
+		Clause: "Nothing is printed while a preload file is analysed (every printing call of the analysis loop is dominated by the false edge of the load flag), diagnostics have a single writer, the file name and the row of every record come from the same object, and the counter of every fresh-name generator is only ever advanced from its own value (names handed out while a preload file is analysed stay in the tables, so a per-file reset makes preloads and target collide where a concatenation cannot).",
 		NotCovered: "equality with the concatenated run",
 	}, propMeta{Technique: "dominance over the SSA CFG of the analysis loop with call-graph print summaries + provenance (root object) comparison of record components", LevelText: "all printing calls of the loop and all file+row record assemblies are enumerated and decided.", LevelNote: "file-name fields are anchored by name (FileName); integer row parameters are followed to their call sites", DesignRef: "4 ORD-load, ORD-prov; 5 C18"})
 
@@ -278,25 +278,25 @@ func init() {
 
 	claim("C21", PropertySpec{
 		Engines: []EngineSpec{all("AL")},
-		Clause: "Narrow clause on the alias rows of the type vocabulary: Int and Integer return the same table value; every OptionalX is built by the same union constructor from (value of X, nil value) as the `?X` notation; the factory of every DefaultX has the constructor normal form of the factory of X plus exactly hasDefault and isBuiltin (what the loader sets for is_default); in the argument parser `?` and `*` reach the same flag stores as is_default and is_asterisk; `A|B` and [A, B] go through one union constructor.",
-		NotCovered: "parseTypeString on arbitrary strings (nesting, whitespace), rendering of signatures, `[T]`",
+		Clause: "Narrow clause on the alias rows of the type vocabulary: Int and Integer return the same table value; every OptionalX is built by the same union constructor from (value of X, nil value) as the `?X` notation; the factory of every DefaultX has the constructor normal form of the factory of X plus exactly hasDefault and isBuiltin (what the loader sets for is_default); in the argument parser `?` and `*` reach the same flag stores as is_default and is_asterisk; `A|B` and [A, B] go through one union constructor; wherever the loader splits a notation string on `|`, the `?` and `*` prefixes of that string have been interpreted first (so `?A|B` is [A|B, NilClass]).",
+		NotCovered: "parseTypeString on arbitrary strings (deeper nesting, whitespace), rendering of signatures, `[T]`",
 	}, propMeta{Technique: "constant folding of straight-line factory functions into constructor normal forms (go/ssa) + agreement rules over the type-checked AST of the loader", LevelText: "all 13 alias rows are enumerated and decided; a factory that is not straight-line is undecided, which fails the check.", LevelNote: "labels, table values and factories are resolved from the type-name switch and the package-level initialisers", DesignRef: "5 C21"})
 
 	claim("C22", PropertySpec{
 		Engines: []EngineSpec{rules("ORD", "ORD-row")},
-		Clause: "In every evaluator that records a definition row, the row is captured in the entry block before any token is read (so multi-line definitions are recorded on the row of their first token).",
+		Clause: "In every evaluator that records a definition row, the row is captured in the entry block before any token is read, and — for a helper — no token is read on any static call path between the generic dispatcher's hand-off and the helper's entry (so multi-line definitions are recorded on the row of their first token).",
 		NotCovered: "hover content, visibility tags, the file name (C18)",
 	}, propMeta{Technique: "ordering rule over the SSA entry block with call-graph 'reads tokens' summaries", LevelText: "all 8 definition-row captures are enumerated and decided.", LevelNote: "row field anchored by name (ErrorRow); comparisons and restores are excluded by def-use", DesignRef: "4 ORD-row; 5 C22"})
 
 	claim("C24", PropertySpec{
-		Engines: []EngineSpec{rules("ORD", "ORD-spec")},
-		Clause: "Functions that evaluate on a by-value copy of the parser (condition look-ahead) cannot reach a store to an append-only global log (call points, callee points, special comments, define-info and signature articles) unless the store is dominated by a test of a parser field the look-ahead sets on its copy.",
+		Engines: []EngineSpec{rules("ORD", "ORD-spec", "ORD-key")},
+		Clause: "Functions that evaluate on a by-value copy of the parser (condition look-ahead) cannot reach a store to an append-only global log (call points, callee points, special comments, define-info and signature articles) unless the store is dominated by a test of a parser field the look-ahead sets on its copy. Every frame-qualified key (frame accessor followed by class accessor in one concatenation — the call-point and callee-point keys and the navigator's look-up keys among them) reads both halves from the same object, so that the recorder and the navigator name the same method.",
 		NotCovered: "rows, callee lists",
-	}, propMeta{Technique: "call-graph effect reachability from speculative roots", LevelText: "all speculative roots are enumerated and decided.", LevelNote: "speculative root = by-value Parser parameter that some caller fills with *ptr", DesignRef: "4 ORD-spec; 5 C24"})
+	}, propMeta{Technique: "call-graph effect reachability from speculative roots; provenance rule over the type-checked AST for qualified-name keys", LevelText: "all speculative roots and all qualified-name concatenations are enumerated and decided.", LevelNote: "speculative root = by-value Parser parameter that some caller fills with *ptr", DesignRef: "4 ORD-spec; 5 C24"})
 
 	claim("C27", PropertySpec{
-		Engines: []EngineSpec{rules("ORD", "ORD-frame")},
-		Clause: "In an evaluator that switches the frame of its context, every frame read that feeds a registry key (inheritance node, defined-class and method table setters) is dominated by the switch, so that all keys of one class definition use one frame.",
+		Engines: []EngineSpec{rules("ORD", "ORD-frame", "ORD-key")},
+		Clause: "In an evaluator that switches the frame of its context, every frame read that feeds a registry key (inheritance node, defined-class and method table setters) is dominated by the switch, so that all keys of one class definition use one frame; every frame-qualified name built by concatenation reads frame and class from the same object.",
 		NotCovered: "qualified reference evaluation, configured-name collisions (C16/C20)",
 	}, propMeta{Technique: "dominance rule over go/ssa", LevelText: "all frame reads feeding keys in frame-switching evaluators are enumerated and decided.", LevelNote: "SetFrame/GetFrame anchored by name on context.Context", DesignRef: "4 ORD-frame; 5 C27"})
 
